@@ -1018,8 +1018,10 @@ impl<'store, 'regex> Iterator for FindRegexIter<'store, 'regex> {
             // iterate any buffers than overlap with this result, discarding those matces in the process
             if !self.allow_overlap {
                 for (j, m2) in self.nextmatches.iter_mut().enumerate() {
-                    if j != i && m2.is_some() {
-                        if m2.as_ref().unwrap().begin() >= m.begin()
+                    if j != i {
+                        //skip ALL buffered/upcoming matches of the other expression that begin inside this result, not just one
+                        while m2.is_some()
+                            && m2.as_ref().unwrap().begin() >= m.begin()
                             && m2.as_ref().unwrap().begin() < m.end()
                         {
                             //(note: no need to check whether m2.end in range m.begin-m.end)
